@@ -184,8 +184,11 @@ def main():
     dprog = G.Program.compile(units.GRIDEVAL_PRELUDE + "".join(c.text(None) for c in cs), vlib.workdir(), "c09_design")
     DESIGN = (dprog, {f.name: E.param_names(f.header, f.name) for f in cs})
     for f in cs: rep.functions.append(f.info())
-    KMAX = 3 if not thorough else 4
+    # order 4 with symbolic knots does not finish (multivariate gcds in the fraction field run for more than an hour): the
+    # thorough tier adds longer knot vectors for orders 0..3 instead
+    KMAX = 3
     t1 = [(k, p, 2 * k + 4) for k in range(0, KMAX + 1) for p in range(0, k + 1)]
+    if thorough: t1 += [(k, p, 2 * k + 6) for k in range(0, KMAX + 1) for p in range(0, k + 1)]
     t2 = [(k, p, nspl, mono) for (k, p, nspl) in ((2, 2, 6), (3, 1, 7), (1, 0, 4), (2, 1, 5)) for mono in (0, 1)]
     t0 = time.time()
     with mp.Pool(min(vlib.NCORES, 16)) as pool:
